@@ -16,7 +16,7 @@ for d in sorted((root / "seeded").glob("C*-*")):
     summ = re.split(r"(?<=[.;:])\s", m.get("summary", "").strip())[0][:170]
     code, line = res.get(d.name, ("?", ""))
     ob = line.replace("failed obligation:", "").strip()
-    verdict = {"exit=1": "VIOLATION", "exit=0": "**missed**", "exit=3": "not claimed"}.get(code, code)
+    verdict = {"exit=1": "VIOLATION", "exit=0": "**missed**", "exit=3": "not claimed", "-": "not claimed"}.get(code, code)
     if ob.startswith("OK "):
         ob = ""
     print(f"| {d.name} | {files}: {summ} | {verdict} | `{ob}` |" if ob else f"| {d.name} | {files}: {summ} | {verdict} | |")
